@@ -803,7 +803,16 @@ impl<'a> GraphGen<'a> {
       };
       inputs.push((e, iv));
     }
-    let lits: Vec<String> = if strings { vec!["\"a\"".into(), "\"b\"".into(), "\"c\"".into()] } else { vec!["1".into(), "2".into(), "3".into(), "10".into()] };
+    // one numeric table in four computes with decimals (written without trailing zeros: the model layer carries the
+    // value of a number, and `toDT` passes the representations that are the normal form already)
+    let decimals = !strings && self.rng.chance(1, 4);
+    let lits: Vec<String> = if strings {
+      vec!["\"a\"".into(), "\"b\"".into(), "\"c\"".into()]
+    } else if decimals {
+      vec!["0.5".into(), "1.25".into(), "2.5".into(), "0.15".into()]
+    } else {
+      vec!["1".into(), "2".into(), "3".into(), "10".into()]
+    };
     let mut outputs = vec![];
     for o in 0..n_out {
       let name = if n_out == 2 { Some(if o == 0 { "r".to_string() } else { "s".to_string() }) } else if self.rng.chance(1, 3) { Some("o".to_string()) } else { None };
@@ -823,7 +832,21 @@ impl<'a> GraphGen<'a> {
     let n_rules = self.rng.below(5) as usize;
     let mut rules = vec![];
     for _ in 0..n_rules {
-      let ies: Vec<String> = (0..n_in).map(|_| self.int_test(env, !for_bkm)).collect();
+      let ies: Vec<String> = (0..n_in)
+        .map(|_| {
+          if decimals && self.rng.chance(1, 3) {
+            let k = self.rng.range(0, 12);
+            match self.rng.below(4) {
+              0 => format!("< {}.5", k),
+              1 => format!(">= {}.25", k),
+              2 => format!("[{}.5..{}.75]", k, k + 4),
+              _ => format!("not({}.5)", k),
+            }
+          } else {
+            self.int_test(env, !for_bkm)
+          }
+        })
+        .collect();
       let oes: Vec<String> = (0..n_out)
         .map(|o| {
           if outputs[o].1.is_some() || strings || for_bkm || self.rng.chance(1, 2) {
@@ -836,6 +859,9 @@ impl<'a> GraphGen<'a> {
       rules.push((ies, oes));
     }
     let kind = match (tag, n_out) {
+      ("U" | "F" | "P" | "A", 1) if decimals => VK::Num,
+      ("U" | "F" | "P" | "A", _) if decimals => VK::CtxRS,
+      ("C+" | "C<" | "C>", 1) if decimals => VK::Num,
       ("U" | "F" | "P" | "A", 1) => if strings { VK::Str } else { VK::Int },
       ("U" | "F" | "P" | "A", _) => if strings { VK::Null } else { VK::CtxInt },
       ("C+" | "C<" | "C>" | "C#", 1) => VK::Int,
@@ -2309,6 +2335,9 @@ pub fn run_graphs(cfg: &Cfg, rep: &mut Report, n_graphs: usize, with_cyclic: boo
         rep.hit(&format!("corpus:{}", p.shape));
       }
       rep.hit(&format!("variant:{}", p.variant));
+      if p.xml.contains(">1.25<") || p.xml.contains(">0.15<") || p.xml.contains(">2.5<") {
+        rep.hit("graph with a decision table over decimals");
+      }
       rep.hit(&format!("outcome:{}", p.implementation.split(' ').next().unwrap_or("").trim_matches(|c| c == '(' || c == ')')));
       if p.implementation.starts_with("(panic") {
         rep.disagree(Kind::ImplVsSpec, "no_panic", "panic while evaluating an invocable", &input_desc, &p.implementation, "a value");
